@@ -103,7 +103,21 @@ MINI_AMR = {
 }
 
 
+_NAMED_MODELS = {}
+
+
 def get_model(name):
+    """named models are long-lived (one object per name and process, as in real use, where one Model serves
+    a whole corpus): an answer that depends on what the object was asked before then disagrees with the
+    history-free reference readings; models given as tables are built afresh"""
+    if isinstance(name, str):
+        if name not in _NAMED_MODELS:
+            _NAMED_MODELS[name] = _build_model(name)
+        return _NAMED_MODELS[name]
+    return _build_model(name)
+
+
+def _build_model(name):
     from penman.model import Model
     if name == 'default':
         return Model()
